@@ -41,6 +41,32 @@ FROZEN = os.path.join(os.path.dirname(__file__), "frozen")
 # K1
 # --------------------------------------------------------------------------
 
+_K1_FACTS = None
+
+
+def _ascii_table_load(src):
+    """src is `TABLE[i].field[j]`-like: a character of a string literal stored in the initialiser of a file-scope table,
+    every string literal of which is 7-bit ASCII."""
+    if _K1_FACTS is None:
+        return False
+    root = None
+    seen_member = False
+    for y in walk(src):
+        if y["k"] == "MemberExpr":
+            seen_member = True
+        if y["k"] == "DeclRefExpr" and y.get("dk") == "var" and y.get("g") and y.get("tc") == "array":
+            root = y["n"]
+    if root is None or not seen_member:
+        return False
+    v = _K1_FACTS.vars.get(root)
+    if v is None or v.get("init") is None or v["init"]["k"] != "InitListExpr":
+        return False
+    lits = [z for z in walk(v["init"]) if z["k"] == "StringLiteral"]
+    if not lits:
+        return False
+    return all(all(ord(ch) < 128 for ch in (z.get("v") or "")) for z in lits)
+
+
 def char_origin(n, charvars):
     """Description of the char lvalue the value of n comes from, or None.
     Returns ('sanitised', why) when the chain contains an unsigned-char
@@ -59,6 +85,8 @@ def char_origin(n, charvars):
                 return inner
             src = s["c"][0]
             if s.get("ck") == "LValueToRValue" and src.get("tc") in ("char", "schar"):
+                if _ascii_table_load(src):
+                    return None          # a character of a string literal in a constant table of the program, all ASCII
                 return ("char", "load of " + render(src), "expr:" + render(strip_noop(src)))
             if s.get("ck") == "LValueToRValue" and src.get("tc") == "u8":
                 return ("uchar", "load of unsigned char " + render(src), "expr:" + render(strip_noop(src)))
@@ -76,6 +104,8 @@ def char_origin(n, charvars):
 
 
 def k1_digest(f):
+    global _K1_FACTS
+    _K1_FACTS = f
     out = {"sites": [], "nsub": 0}
     for name, fn in f.funcs.items():
         if "body" not in fn or not fn["file"].endswith(f.unit):
@@ -555,6 +585,24 @@ def _upper_bound(fn, n):
         ua, ub = _upper_bound(fn, a), _upper_bound(fn, b)
         return max(ua, ub) if ua is not None and ub is not None else None
     if s_["k"] == "DeclRefExpr" and s_.get("dk") == "var" and not s_.get("g"):
+        # clamp written as a statement:  if (v > K) v = C;   (C <= K)
+        for y in walk(fn["body"]):
+            if y["k"] == "IfStmt" and y["c"][2] is None and y.get("l", 0) <= s_.get("l", 0):
+                c = strip(y["c"][0])
+                if c is not None and c["k"] == "BinaryOperator" and c["op"] in (">", ">=") and strip(c["c"][0]) is not None \
+                        and strip(c["c"][0]).get("did") == s_.get("did") and const_value(c["c"][1]) is not None:
+                    k = const_value(c["c"][1])
+                    then = y["c"][1]
+                    while then is not None and then["k"] == "CompoundStmt" and len(then["c"]) == 1:
+                        then = then["c"][0]
+                    if then is not None and then["k"] == "BinaryOperator" and then["op"] == "=" and strip(then["c"][0]) is not None \
+                            and strip(then["c"][0]).get("did") == s_.get("did") and const_value(then["c"][1]) is not None \
+                            and const_value(then["c"][1]) <= k:
+                        # no later re-definition between the clamp and the use
+                        later = [z for z in walk(fn["body"]) if z["k"] == "BinaryOperator" and z["op"] == "=" and strip(z["c"][0]) is not None
+                                 and strip(z["c"][0]).get("did") == s_.get("did") and y["l"] < z.get("l", 0) <= s_.get("l", 0) and z["id"] != then["id"]]
+                        if not later:
+                            return k if c["op"] == ">" else max(k - 1, const_value(then["c"][1]))
         ubs = []
         for y in walk(fn["body"]):
             src = None
